@@ -2,6 +2,9 @@ INIT Init
 NEXT Next
 CONSTANTS MaxLen = 3
   Sizes = {64, 80}
+  Pkts <- LinkPkts
+  Filters <- LinkFilters
+  CutAll = TRUE
   Cap = 2
   Defect = "offset-before-skip"
 INVARIANTS Refines TrackedIsTrue OffsetsTrue BatchesFull
